@@ -306,7 +306,10 @@ def history_reps(limit_per_op: int) -> List[bytes]:
                 ins, err = drv.py_decode(d, ADDR)
                 if ins is None or ins.name().startswith("PRE"):
                     continue
-                key = (pre, op, ins.length(), tuple(type(t).__name__ for t in ins.render()))
+                try:
+                    key = (pre, op, ins.length(), tuple(type(t).__name__ for t in ins.render()))
+                except Exception as exc:  # noqa: BLE001 - a rendering failure is part A's finding; keep the representative
+                    key = (pre, op, ins.length(), ("render-raises", type(exc).__name__))
                 if key in seen:
                     continue
                 seen.add(key)
@@ -324,7 +327,15 @@ def _obj_fp(ins, addr):
         ilc = drv.il_canon(il)
     except Exception as exc:  # noqa: BLE001
         ilc = ("EXC", type(exc).__name__)
-    return (drv.asm_str(ins.render()), ins.length(), bytes(drv.encode(ins, addr)).hex(), ilc)
+    try:
+        text = drv.asm_str(ins.render())
+    except Exception as exc:  # noqa: BLE001 - totality of rendering is judged in part A
+        text = ("EXC", type(exc).__name__)
+    try:
+        enc = bytes(drv.encode(ins, addr)).hex()
+    except Exception as exc:  # noqa: BLE001
+        enc = ("EXC", type(exc).__name__)
+    return (text, ins.length(), enc, ilc)
 
 
 def _shard_d(args):
